@@ -353,6 +353,17 @@ func (c *Ctx) evalCall(x *ECall) CVal {
 		}
 		sub.depth = c.depth + 1
 		return sub.eval(x.Args[0])
+	case "local": // local(name): the function's local variable of that name (not a result alias such as err)
+		id, ok := x.Args[0].(*EIdent)
+		if !ok || len(x.Args) != 1 {
+			cfail("local(name): identifier expected")
+		}
+		if c.local != nil {
+			if v, ok := c.local(id.Name); ok {
+				return v
+			}
+		}
+		cfail("unknown identifier %s", id.Name)
 	case "old":
 		if len(x.Args) != 1 {
 			cfail("old takes one argument")
